@@ -131,6 +131,7 @@ macro_rules! level {
     };
 }
 level!(level1, level0);
+pub fn with_view1<K: ViewK>(s: &VSpec, ids: &[VarId], k: K) -> K::Out { level1(s, ids, k) }
 level!(level2, level1);
 
 // ---------------------------------------------------------------------------------------------
